@@ -18,7 +18,8 @@ CONSTANTS Ms,            \* matching scales (tokens), sorted
           RefPoint,      \* <<scale, nf>> of the reference
           QScales, QNfs, \* queries are drawn from QScales \X QNfs
           MaxQueries, MaxMutations,
-          CopyRef, CopyOnHit, CopyOnStore
+          CopyRef, CopyOnHit, CopyOnStore,
+          Qed, TauTok, TauBelow   \* running QED: segments across the tau mass are split
 
 VARIABLES heap,      \* address -> term
           cache,     \* key -> address ; key = <<term of a_ref argument, nf, from, to>>
@@ -36,15 +37,40 @@ Dec(t, nf, down) == <<"dec", t, nf, down>>
 Put(f, k, v) == [x \in (DOMAIN f) \cup {k} |-> IF x = k THEN v ELSE f[x]]
 Fresh(h) == (CHOOSE n \in 0..100 : n \notin DOMAIN h /\ \A m \in DOMAIN h : m < n)
 
+(* with QED the number of leptons changes at the tau mass: a segment across it is solved  *)
+(* in two pieces (scale token TauTok stands for m_tau^2, tokens <= TauBelow lie below it)   *)
+Lep(x) == IF x = TauTok THEN 3 ELSE IF x <= TauBelow THEN 2 ELSE 3
+CrossesTau(seg) == Qed /\ (seg.origin <= TauBelow) # (seg.target <= TauBelow)
+
 (* the reference value of a query, computed from nothing *)
 RECURSIVE PureFrom(_, _, _, _)
 PureFrom(t, p, k, down) ==
   IF k > Len(p) THEN t
   ELSE LET seg == p[k]
-           t1 == IF seg.origin = seg.target THEN t ELSE Comp(t, seg.nf, seg.origin, seg.target)
+           t1 == IF seg.origin = seg.target THEN t
+                 ELSE IF CrossesTau(seg) THEN Comp(Comp(t, seg.nf, seg.origin, TauTok), seg.nf, TauTok, seg.target)
+                 ELSE Comp(t, seg.nf, seg.origin, seg.target)
            t2 == IF k < Len(p) THEN Dec(t1, seg.nf, down) ELSE t1
        IN PureFrom(t2, p, k + 1, down)
 Pure(q) == LET p == Path(Ms, RefPoint, q) IN PureFrom(Ref, p, 1, IsDownwardPath(p))
+
+(* one cache-mediated solution of the RGE across (part of) a segment: Couplings.compute *)
+Compute1(st, nf, o, t) ==
+  LET key == <<st.heap[st.cur], nf, o, t>> IN
+  IF key \in DOMAIN st.cache
+  THEN IF CopyOnHit
+       THEN LET n == Fresh(st.heap) IN
+            [st EXCEPT !.heap = Put(@, n, st.heap[st.cache[key]]), !.cur = n,
+                       !.steps = Append(@, [key |-> key, hit |-> TRUE])]
+       ELSE [st EXCEPT !.cur = st.cache[key], !.steps = Append(@, [key |-> key, hit |-> TRUE])]
+  ELSE LET n1 == Fresh(st.heap)
+           h1 == Put(st.heap, n1, Comp(st.heap[st.cur], nf, o, t)) IN
+       IF CopyOnStore
+       THEN LET n2 == Fresh(h1) IN
+            [st EXCEPT !.heap = Put(h1, n2, h1[n1]), !.cache = Put(@, key, n2), !.cur = n1,
+                       !.steps = Append(@, [key |-> key, hit |-> FALSE])]
+       ELSE [st EXCEPT !.heap = h1, !.cache = Put(@, key, n1), !.cur = n1,
+                       !.steps = Append(@, [key |-> key, hit |-> FALSE])]
 
 (* Couplings.a: fold over the path; st = [heap, cache, cur, steps] *)
 RECURSIVE Walk(_, _, _, _)
@@ -54,22 +80,9 @@ Walk(st, p, k, down) ==
     LET seg == p[k]
         afterCompute ==
           IF seg.origin = seg.target THEN st                     \* very short segment: skipped
-          ELSE
-            LET key == <<st.heap[st.cur], seg.nf, seg.origin, seg.target>> IN
-            IF key \in DOMAIN st.cache
-            THEN IF CopyOnHit
-                 THEN LET n == Fresh(st.heap) IN
-                      [st EXCEPT !.heap = Put(@, n, st.heap[st.cache[key]]), !.cur = n,
-                                 !.steps = Append(@, [key |-> key, hit |-> TRUE])]
-                 ELSE [st EXCEPT !.cur = st.cache[key], !.steps = Append(@, [key |-> key, hit |-> TRUE])]
-            ELSE LET n1 == Fresh(st.heap)
-                     h1 == Put(st.heap, n1, Comp(st.heap[st.cur], seg.nf, seg.origin, seg.target)) IN
-                 IF CopyOnStore
-                 THEN LET n2 == Fresh(h1) IN
-                      [st EXCEPT !.heap = Put(h1, n2, h1[n1]), !.cache = Put(@, key, n2), !.cur = n1,
-                                 !.steps = Append(@, [key |-> key, hit |-> FALSE])]
-                 ELSE [st EXCEPT !.heap = h1, !.cache = Put(@, key, n1), !.cur = n1,
-                                 !.steps = Append(@, [key |-> key, hit |-> FALSE])]
+          ELSE IF CrossesTau(seg)
+               THEN Compute1(Compute1(st, seg.nf, seg.origin, TauTok), seg.nf, TauTok, seg.target)
+               ELSE Compute1(st, seg.nf, seg.origin, seg.target)
         afterDec ==
           IF k < Len(p)
           THEN [afterCompute EXCEPT !.heap = [@ EXCEPT ![afterCompute.cur] = Dec(@, seg.nf, down)]]
@@ -114,9 +127,10 @@ C17_CacheImmutable == [][\A k \in DOMAIN cache : k \in DOMAIN cache' /\ heap'[ca
 (* C16: the steps taken are exactly the atlas path: one compute per non-degenerate segment *)
 C16_Steps == nq > 0 =>
   LET p == Path(Ms, RefPoint, last.q)
-      segs == SelectSeq(p, LAMBDA s : s.origin # s.target) IN
-  /\ Len(last.steps) = Len(segs)
-  /\ \A j \in 1..Len(segs) : /\ last.steps[j].key[2] = segs[j].nf
-                              /\ last.steps[j].key[3] = segs[j].origin
-                              /\ last.steps[j].key[4] = segs[j].target
+      segs == SelectSeq(p, LAMBDA s : s.origin # s.target)
+      nsplit == Cardinality({j \in 1..Len(segs) : CrossesTau(segs[j])}) IN
+  /\ Len(last.steps) = Len(segs) + nsplit
+  /\ (nsplit = 0 => \A j \in 1..Len(segs) : /\ last.steps[j].key[2] = segs[j].nf
+                                              /\ last.steps[j].key[3] = segs[j].origin
+                                              /\ last.steps[j].key[4] = segs[j].target)
 =============================================================================
